@@ -25,6 +25,8 @@ type env struct {
 	servers    []*mockServer
 	releaseAll bool
 	deadline   time.Duration // readiness deadline configured for the scenario
+
+	unknownSeen []string // C18 census: goroutines no class accounts for (diagnosis)
 }
 
 func (e *env) emit(format string, args ...any) {
